@@ -2,6 +2,7 @@ import Ts.Spec.PesMux
 import Ts.Lemmas.C02
 import Ts.Lemmas.C02b
 import Ts.Props.C06
+import Ts.Gen.Tables
 /-!
 # C02 — PES payload conservation through the transport multiplex
 
@@ -449,5 +450,11 @@ example : exPesF.WF ∧ WellFormedPlan exPesF exPlanF ∧ headerLen exPesF = 25 
 example : PesStream none [(exPes0, exPlan0), (exPes1, exPlan1), (exPesPad, exPlanPad)] := by decide +kernel
 example : streamEvs .begin [exPlan0, exPlan1, exPlanPad] =
     [[.start, .beginPkt 174 14], [.endPkt, .beginPkt 173 15], [.endPkt, .beginPkt 4 184]] := by decide +kernel
+
+/-! ### tie to the value table regenerated from `StreamType::is_pes` in `/repo/src/lib.rs` -/
+/-- the stream types the SOURCE declares to be carried as PES are exactly those for which the
+application (and its model) installs a PES filter -/
+theorem tie_pes_stream_types : ∀ st : Fin 256,
+    Ts.App.isPes st.val = Ts.Gen.pesStreamTypes.contains st.val := by decide +kernel
 
 end Ts.Props.C02
